@@ -89,6 +89,9 @@ pub enum Op {
     RawZero { q: [Sc; 6], internal: [Sc; 5] },
     /// raw range row over a real quad chain, next row carries d_next
     RawRange { quads: [u8; 4], q: Sc },
+    /// w = append_witness(c); assert w == c on two rows exactly `half` rows apart (a fault on w then
+    /// violates two rows by the same amount, half a domain apart)
+    SymmetricPair { c: Sc, half: usize },
 }
 
 impl Op {
@@ -130,6 +133,7 @@ impl Op {
             Op::RawArith { .. } => "raw_arith",
             Op::RawZero { .. } => "raw_zero",
             Op::RawRange { .. } => "raw_range",
+            Op::SymmetricPair { .. } => "symmetric_pair",
         }
     }
 }
@@ -140,7 +144,7 @@ pub const ALL_OP_NAMES: &[&str] = &[
     "logic_and", "logic_xor", "truncate", "decomposition", "point_input", "point_plain", "point_const",
     "point_public", "point_add", "point_sub", "point_neg", "select_identity", "select_point", "mul_point",
     "mul_generator", "assert_equal_point", "assert_equal_public_point", "filler", "raw_arith", "raw_zero",
-    "raw_range",
+    "raw_range", "symmetric_pair",
 ];
 
 #[derive(Clone, Debug, PartialEq)]
@@ -669,6 +673,15 @@ pub fn interpret(prog: &Program, tape: &Tape, c: &mut Composer) -> Result<(), Er
                     .constant(q[5])
                     .verif_raw(*internal);
                 c.append_custom_gate(k);
+            }
+            Op::SymmetricPair { c: k, half } => {
+                let w = c.append_witness(*k);
+                c.assert_equal_constant(w, *k, None);
+                for _ in 0..half.saturating_sub(1) {
+                    c.append_gate(Constraint::new());
+                }
+                c.assert_equal_constant(w, *k, None);
+                s.push(w);
             }
             Op::RawRange { quads, q } => {
                 let four = Sc::from(4u64);
